@@ -1,5 +1,6 @@
 import LoguruModel.Queue.Sent
 import LoguruModel.Generated.QueueShape
+import LoguruModel.Queue.Async
 /-
 C03 – property theorems about the producer / worker protocol of an `enqueue=True` handler
 (`Queue.step`), for every assignment of threads to processes and every schedule.
@@ -168,5 +169,40 @@ theorem exception_value_never_blocks_the_queue :
 /-- tie G for "no loss when the program simply ends": the clean-up that drains the queue (`logger.remove`, whose
 effect on the owner's worker is `owner_remove_drains`) is registered with `atexit` unconditionally at import. -/
 theorem exit_drain_registered_unconditionally : Queue.ShapeGen.atexitRemoveUnconditional = true := by decide
+
+/-! ### coroutine sinks (`Queue/Async.lean`) -/
+
+/-- `await logger.complete()` waits for the tasks of its loop: whenever a complete() on loop `l` has returned, every
+task created on `l` before its snapshot – i.e. for every message accepted before the call – has finished.  For every
+schedule of writes, event-loop progress and concurrent completers on any number of loops. -/
+theorem async_complete_waits_for_its_loop (sf : Bool) (sched : List (Async.Tid × Async.Lab)) (l n : Nat)
+    (h : (l, n) ∈ (Async.run sf {} sched).returned) :
+    ∀ i, i < n → ((Async.run sf {} sched).task i).loop = l → ((Async.run sf {} sched).task i).done = true :=
+  ((Async.inv_run sf sched).ret l n h).2
+
+/-- …and it never waits for another loop's task: the step over a foreign task is always enabled -/
+theorem async_complete_never_waits_for_foreign_loop (s : Async.St) (t : Async.Tid) (l n pos : Nat)
+    (hq : s.pc t = .c l n pos) (hp : pos < n) (hf : (s.task pos).loop ≠ l) :
+    (Async.step true s t .await).isSome = true := by
+  simp [Async.step, hq, hp, hf]
+
+/-- without the foreign-loop test a completer can be suspended on a task its own loop will never run -/
+theorem async_foreign_wait_witness :
+    let s := Async.run false {} [(1, .write 7), (2, .startComplete 0)]
+    Async.step false s 2 .await = none ∧ Async.step false s 2 .finish = none ∧
+    (Async.step true (Async.run true {} [(1, .write 7), (2, .startComplete 0)]) 2 .await).isSome = true := by
+  decide
+
+/-- non-vacuity: two loops, a completer that waits for its own task and skips the foreign one -/
+example :
+    let sched : List (Async.Tid × Async.Lab) := [
+      (1, .write 0), (1, .write 7), (2, .startComplete 0), (2, .await),      -- blocked: task 0 not done
+      (9, .run 0), (2, .await), (2, .await), (2, .finish)]
+    (Async.run true {} sched).returned = [(0, 2)] ∧ ((Async.run true {} sched).task 1).done = false := by
+  decide
+
+/-- tie G: the snapshot is taken under the handler lock and `_complete_task` skips foreign loops before awaiting -/
+theorem async_shape_of_source :
+    Queue.ShapeGen.asyncSnapshotUnderLock = true ∧ Queue.ShapeGen.asyncSkipsForeignLoop = true := by decide
 
 end C03
